@@ -187,7 +187,7 @@ pub fn ref_encode(a: u16, t: u8, d: &[u8], nl: bool) -> Vec<u8> {
 /// count in 8 bits, or skips the 255-byte limit, accepts them.
 pub fn oversize_strings(rng: &mut Rng) -> Vec<Vec<u8>> {
     let mut out = vec![];
-    for (k, n) in [256usize, 257, 300, 511, 512, 515, 768, 1023].iter().enumerate() {
+    for (k, n) in [256usize, 257, 300, 511, 512, 515, 768, 1023, 2042, 2043, 2100, 4096, 5000].iter().enumerate() {
         for delta in [0usize, 1] {
             let mut bytes = vec![((n + delta) % 256) as u8, rng.byte(), rng.byte(), rng.byte()];
             bytes.extend(rng.bytes(*n));
